@@ -548,6 +548,27 @@ where
                 let mut s = sc.clone();
                 let ok1 = Self::apply_lin(&mut l, self.def, &e);
                 let ok2 = Self::apply_sc(&mut s, self.def, &e);
+                // on_invret(t, op, ret) is on_invoke followed by on_return
+                if let (Ev::Inv(th, o), true) = (&e, h.len() <= self.b.clone_depth + 1) {
+                    for r in 0..self.def.rets.len() {
+                        let (mut la, mut sa) = (lin.clone(), sc.clone());
+                        let a1 = la.on_invret(*th, self.def.ops[*o].clone(), self.def.rets[r].clone()).is_ok();
+                        let a2 = sa.on_invret(*th, self.def.ops[*o].clone(), self.def.rets[r].clone()).is_ok();
+                        let (mut lb, mut sb) = (l.clone(), s.clone());
+                        let b1 = ok1 && lb.on_return(*th, self.def.rets[r].clone()).is_ok();
+                        let b2 = ok2 && sb.on_return(*th, self.def.rets[r].clone()).is_ok();
+                        {
+                            let mut rep = self.shared.lock().unwrap();
+                            rep.transitions += 2;
+                        }
+                        if a1 != b1 || a2 != b2 || la != lb || sa != sb || la.is_consistent() != lb.is_consistent() || sa.is_consistent() != sb.is_consistent() {
+                            let mut hh = h.clone();
+                            hh.push(e);
+                            hh.push(Ev::Ret(*th, r));
+                            self.violation("invret-differs", "on_invret() does not equal on_invoke() followed by on_return()".into(), &hh);
+                        }
+                    }
+                }
                 h.push(e);
                 if !ok1 || !ok2 {
                     self.violation("wellformed-rejected", format!("well-formed event {:?} was rejected (lin ok={ok1}, sc ok={ok2})", e), h);
